@@ -209,7 +209,10 @@ struct Exec
 	{	int64_t sz = 0 ;
 		auto it = os.ns.find ("/sim/cwd/" + t.store) ;
 		if (it != os.ns.end ()) sz = (int64_t) it->second->data.size () ;
-		return 20000 + 4 * (sz + req_bytes) ;
+		// bounded time = a bounded number of I/O steps: linear in the size of the store and of the request, plus room for one loop
+		// over a 16-bit count taken from the input (e.g. 65535 AIFF comments at EOF, ~10 steps each): such a loop is slow for a tiny
+		// input but it terminates, and the property asks for a bound, not for a speed
+		return (1 << 20) + 4 * (sz + req_bytes) ;
 	}
 
 	void after_call (Task &t, Rec &r)
@@ -300,7 +303,14 @@ struct Exec
 				for (int64_t b = 0 ; b < tl ; b++) cf->data.push_back ((uint8_t) mix3 (key, 0xe3c, (uint64_t) b)) ;
 			}
 			cf->min_read = cf->max_read_end = cf->min_write = cf->max_write_end = -1 ;
-			t.emb_k = k ; t.emb_len = (int64_t) file->data.size () ; t.emb_file = cf ;
+			int64_t wt = 0 ;
+			if (t.mode != SFM_READ)
+			{	// write: existing bytes may also follow the descriptor position (emb_wt of them); the new sound file belongs after
+				// everything that is already in the container, whatever the position of the descriptor
+				wt = op.geti ("emb_wt", 0) ;
+				for (int64_t b = 0 ; b < wt ; b++) cf->data.push_back ((uint8_t) mix3 (key, 0xe3b, (uint64_t) (k + b))) ;
+			}
+			t.emb_k = k + wt ; t.emb_len = (int64_t) file->data.size () ; t.emb_file = cf ;
 			t.fd = os.open_fd (cf, t.mode == SFM_READ ? O_RDONLY : O_RDWR, false) ;
 			os.fds [t.fd].off = k ;
 			t.close_desc = op.geti ("close_desc", 1) != 0 ;
@@ -374,7 +384,8 @@ struct Exec
 		}
 		{	SF_FORMAT_INFO fi ; fi.format = t.info.format & SF_FORMAT_TYPEMASK ;
 			SF_FORMAT_INFO si ; si.format = t.info.format & SF_FORMAT_SUBMASK ;
-			if (sf_command (nullptr, SFC_GET_FORMAT_INFO, &fi, sizeof (fi)) || sf_command (nullptr, SFC_GET_FORMAT_INFO, &si, sizeof (si)))
+			// SF_FORMAT_DWVW_N is a named public encoding (AIFF files with an unusual DWVW bit width are read as such) that the format enumeration does not list
+			if (sf_command (nullptr, SFC_GET_FORMAT_INFO, &fi, sizeof (fi)) || (sf_command (nullptr, SFC_GET_FORMAT_INFO, &si, sizeof (si)) && si.format != SF_FORMAT_DWVW_N))
 				viol (t, "info.format_unknown", "-", "format word names no known container/encoding") ;
 		}
 		if (t.mode == SFM_READ && m.written && m.clean && !m.corrupted && !t.faulted && m.fmt)
@@ -1367,6 +1378,62 @@ struct Exec
 					for (int b = 0 ; b < w && at >= 0 && at + b < sz ; b++) d [at + b] = (uint8_t) (val >> (8 * (be ? w - 1 - b : b))) ;
 				}
 			}
+			else if (kind == "chunk_field" || kind == "inject")
+			{	// structure aware, for chunked containers: walk the chunk list of the (still valid) image
+				struct Ck { int64_t hdr, pay, len ; } ;
+				std::vector<Ck> cks ;
+				int fam = 0 ;		// 1 IFF big-endian sizes (FORM), 2 RIFF little-endian, 3 RIFX big-endian, 4 CAF (12-byte chunk headers, 64-bit BE sizes)
+				if (sz >= 12 && !memcmp (d.data (), "FORM", 4)) fam = 1 ;
+				else if (sz >= 12 && (!memcmp (d.data (), "RIFF", 4) || !memcmp (d.data (), "RF64", 4))) fam = 2 ;
+				else if (sz >= 12 && !memcmp (d.data (), "RIFX", 4)) fam = 3 ;
+				else if (sz >= 8 && !memcmp (d.data (), "caff", 4)) fam = 4 ;
+				auto rd32 = [&] (int64_t at, bool be) { uint32_t v = 0 ; for (int b = 0 ; b < 4 ; b++) v |= (uint32_t) d [at + b] << (8 * (be ? 3 - b : b)) ; return (int64_t) v ; } ;
+				if (fam >= 1 && fam <= 3)
+				{	bool be = fam != 2 ;
+					for (int64_t at = 12 ; at + 8 <= sz && cks.size () < 300 ; )
+					{	int64_t len = rd32 (at + 4, be) ; cks.push_back (Ck { at, at + 8, std::min<int64_t> (len, sz - at - 8) }) ;
+						if (len < 0 || len > sz) break ;
+						at += 8 + len + (len & 1) ;
+					}
+				}
+				else if (fam == 4)
+				{	for (int64_t at = 8 ; at + 12 <= sz && cks.size () < 300 ; )
+					{	int64_t hi = rd32 (at + 4, true), lo = rd32 (at + 8, true) ; int64_t len = hi ? sz : lo ;
+						cks.push_back (Ck { at, at + 12, std::min<int64_t> (len, sz - at - 12) }) ;
+						if (hi || len > sz) break ;
+						at += 12 + len ;
+					}
+				}
+				if (kind == "chunk_field" && !cks.empty ())
+				{	// counts and sizes live in the first bytes of a chunk payload: overwrite one of them with a boundary value
+					const Ck &c = cks [(size_t) (e.geti ("chunk", 0) % (int64_t) cks.size ())] ;
+					int w = (int) e.geti ("width", 2) ; int64_t val = e.geti ("val", 0) ;
+					int64_t fo = c.len > 0 ? e.geti ("foff", 0) % std::min<int64_t> (c.len, 32) : 0 ;
+					bool be = fam == 2 ? false : true ; if (e.geti ("swap", 0)) be = !be ;
+					for (int b = 0 ; b < w && c.pay + fo + b < sz ; b++) d [(size_t) (c.pay + fo + b)] = (uint8_t) (val >> (8 * (be ? w - 1 - b : b))) ;
+				}
+				else if (kind == "inject" && fam)
+				{	// a well-formed chunk with an id the reader knows, which the writer of this image did not produce
+					static const char *iff [] = { "INST", "MARK", "COMT", "APPL", "NAME", "AUTH", "ANNO", "(c) ", "PEAK", "basc", "CHAN", "COMM", "FVER", "SSND", "VHDR", "CHAN", "ATAK", "RLSE" } ;
+					static const char *riff [] = { "smpl", "inst", "cue ", "LIST", "bext", "cart", "fact", "PEAK", "acid", "strc", "afsp", "clm ", "plst", "DISP", "levl", "iXML", "fmt ", "data", "ds64", "PAD ", "JUNK", "MEXT", "labl", "note" } ;
+					static const char *caf [] = { "chan", "info", "peak", "uuid", "free", "mark", "inst", "strg", "desc", "kuki", "pakt", "data", "ovvw", "midi", "umid", "regn" } ;
+					const char *id = fam == 1 ? iff [e.geti ("id", 0) % 18] : fam == 4 ? caf [e.geti ("id", 0) % 16] : riff [e.geti ("id", 0) % 24] ;
+					int64_t len = e.geti ("len", 20) % 300 ; int fill = (int) e.geti ("fill", 0) ;
+					std::vector<uint8_t> ck (id, id + 4) ;
+					bool be = fam != 2 ;
+					if (fam == 4) for (int b = 0 ; b < 8 ; b++) ck.push_back ((uint8_t) ((uint64_t) len >> (8 * (7 - b)))) ;
+					else for (int b = 0 ; b < 4 ; b++) ck.push_back ((uint8_t) ((uint64_t) len >> (8 * (be ? 3 - b : b)))) ;
+					for (int64_t b = 0 ; b < len ; b++) ck.push_back (fill == 0 ? (uint8_t) mix3 (key, 0xdd0 + k, (uint64_t) b) : fill == 1 ? 0 : fill == 2 ? 0xff : (uint8_t) (b < 2 ? 0x7f : 0)) ;
+					if (fam != 4 && (len & 1)) ck.push_back (0) ;
+					// before the chunk chosen by "chunk" (the audio chunk is usually last) or at the very end
+					int64_t at = cks.empty () || e.geti ("at_end", 0) ? sz : cks [(size_t) (e.geti ("chunk", 0) % (int64_t) cks.size ())].hdr ;
+					d.insert (d.begin () + at, ck.begin (), ck.end ()) ;
+					if (fam != 4 && d.size () >= 8)
+					{	int64_t total = rd32 (4, be) + (int64_t) ck.size () ;
+						for (int b = 0 ; b < 4 ; b++) d [4 + b] = (uint8_t) ((uint64_t) total >> (8 * (be ? 3 - b : b))) ;
+					}
+				}
+			}
 			else if (kind == "truncate") { if (sz) d.resize ((size_t) where (e.geti ("len", 0), e.gets ("region", "any"))) ; }
 			else if (kind == "zero") { int64_t n = e.geti ("len", 512) ; for (int64_t b = 0 ; b < n && off + b < sz ; b++) d [off + b] = 0 ; }
 			else if (kind == "dup")
@@ -1772,6 +1839,7 @@ void Exec::run ()
 	key = (uint64_t) plan.geti ("seed", 1) ;
 	const J &cfg = plan.at ("cfg") ;
 	os.clock_off = cfg.geti ("clock", 0) ;
+	os.fd_zero = cfg.geti ("fd0", 0) != 0 ;
 	os.trace_io_enabled = opts.io_trace ;
 	os.record_io = opts.record_io ;
 	if (opts.preload) for (auto &kv : *opts.preload) { SimFileP f = os.file (kv.first, true) ; f->data = kv.second ; }
